@@ -6,7 +6,7 @@ from .. import seq, qtable as Q
 
 ID = "C02"
 LEVEL = "model_checking"
-ASSUMPTIONS = ["see C09; stores are built through the real EVENT path, answers come from the real REQ path (default schedule)"]
+ASSUMPTIONS = ["real nostr_relay code imported from /repo's working tree, driven through web.start_client / the storage API; SQLite runs for real behind a same-thread connection shim (bound to real aiosqlite by C06's conformance cases); LMDB is an in-memory double (bound to the real liblmdb by C10's conformance cases), msgpack is pip's pure-python codec; asyncio runs on a controlled virtual-time loop; stores are built through the real EVENT path, answers come from the real REQ path (default schedule)"]
 CHUNK = 1
 
 
